@@ -3,15 +3,16 @@ From Slug Require Import Base.Str Base.PathAlg Base.PathLemmas Ignore.Rules Igno
   Ignore.Prune Ignore.Defaults FS.FS FS.FSProofs Slug.Unpack Slug.Pack Slug.RoundTrip Slug.RoundTripPack Slug.PackIgnore.
 
 (* 1. The pattern-to-regexp translation implements the documented language:
-      for every well-formed written pattern and every path without a newline,
+      for every well-formed written pattern and every path (any bytes: the
+      expressions are compiled with the s flag since the repair 257743f),
       the rule matches iff the segment-wise specification does ('*' and '?'
       stay inside one segment, a "**" segment spans segments: zero or more in
       the middle, one or more at the end; anchoring and directory form are
       the absence of a leading / presence of a trailing "**" segment). *)
 Theorem C03_compile_correct :
-  forall pat path, pat_ok pat = true -> nonl path ->
+  forall pat path, pat_ok pat = true ->
     tmatch (tokenize (pat_text pat)) path = gmatch pat (split_on slash path).
-Proof. exact compile_correct. Qed.
+Proof. exact compile_correct_all. Qed.
 
 (* 2. The negations-after flag: from the pristine defaults a rule carries it
       exactly when a later rule is a negation; from any reachable state of the
@@ -41,8 +42,8 @@ Proof. exact last_match_wins. Qed.
 Theorem C03_dominating_sound :
   forall rules d, flags_sound rules -> (forall r, In r rules -> rule_ok r) ->
     excludes rules d = (true, true) ->
-    forall t, nonl t -> fst (excludes rules (d ++ t)) = true.
-Proof. exact dominating_sound. Qed.
+    forall t, fst (excludes rules (d ++ t)) = true.
+Proof. exact dominating_sound_all. Qed.
 
 (* 5. Pruning never changes what ships: the walk with SkipDir on dominating
       matches emits exactly the entries of the walk that visits everything,
@@ -62,8 +63,8 @@ Proof. exact defaults_spec. Qed.
 
 (* 7. The same on the model of Pack itself (not the abstract walk): for every
       file system holding, at the source path, a tree of regular files,
-      directories, special files and links that stay inside (sorted listings,
-      names without a newline, any depth and width), every option set and
+      directories, special files and links that stay inside (sorted listings, any
+      names, any depth and width), every option set and
       working directory, and whatever rule set parseIgnoreFile loads (from the
       tree's .terraformignore under the current state of the shared flags, or
       the built-in rules) - provided its rules that end in "**" compile to a
@@ -79,7 +80,7 @@ Theorem C03_pack_ships_exactly_the_unexcluded :
     is_dir fs = true -> rdir fs pre -> forallb seg_ok (pre ++ [x]) = true ->
     get fs (pre ++ [x]) = Some (to_node (SDir pmR mtR ks)) ->
     sheight (SDir pmR mtR ks) < fuel -> wfs (SDir pmR mtR ks) ->
-    wf (SDir pmR mtR ks) -> links_ok [] (SDir pmR mtR ks) -> nlfree (SDir pmR mtR ks) ->
+    wf (SDir pmR mtR ks) -> links_ok [] (SDir pmR mtR ks) ->
     load_rules fs opts flags cwd (join_abs (pre ++ [x])) = (rules, flags') ->
     (forall rs, rules = Some rs -> flags_sound rs /\ (forall r, In r rs -> rule_ok r)) ->
     exists files size,
